@@ -142,6 +142,20 @@ pub fn push_wrapper_open(sh: &mut Sheet, w: usize) {
             sh.plain(":", &ctx);
             sh.plain("b", &ctx);
             sh.plain(")", &ctx);
+            // a function directly in the prelude (not inside parentheses) is selector context as well
+            sh.ws(false, &ctx);
+            sh.plain("and", &ctx);
+            sh.ws(false, &ctx);
+            sh.plain("selector(", &ctx);
+            sh.plain(".", &ctx);
+            sh.push("q", Role::Class, &ctx);
+            sh.ws(true, &ctx);
+            sh.plain(":", &ctx);
+            sh.plain("is(", &ctx);
+            sh.plain(".", &ctx);
+            sh.push("r", Role::Class, &ctx);
+            sh.plain(")", &ctx);
+            sh.plain(")", &ctx);
         }
         2 => {
             sh.plain("@layer", &ctx);
@@ -275,6 +289,10 @@ pub const KINDS: &[Kind] = &[
     Kind { name: "question", pieces: &["?"], micro: None },
     Kind { name: "amp", pieces: &["&"], micro: None },
     Kind { name: "int", pieces: &["1"], micro: None },
+    Kind { name: "int-7-digits", pieces: &["1234567"], micro: None },
+    Kind { name: "int-10-digits", pieces: &["2147483647"], micro: None },
+    Kind { name: "px-7-digits", pieces: &["7654321px"], micro: None },
+    Kind { name: "percentage-7-digits", pieces: &["1234567%"], micro: None },
     Kind { name: "neg-int", pieces: &["-1"], micro: None },
     Kind { name: "pos-int", pieces: &["+1"], micro: None },
     Kind { name: "decimal", pieces: &["1.5"], micro: None },
